@@ -26,9 +26,16 @@ func (k Keeper) BeginBlocker(ctx context.Context) error {
 			err = k.ExecuteStartedStatus(ctx, auction)
 		case types.AuctionStatusVesting:
 			err = k.ExecuteVestingStatus(ctx, auction)
+		case types.AuctionStatusFinished, types.AuctionStatusCancelled:
+			// Nothing left to do for a finished or cancelled auction
+			err = nil
 		default:
 			err = fmt.Errorf("invalid auction status %s", auction.GetStatus())
 		}
+		// Report the failure of any auction, not only of the last one
+		if err != nil {
+			return err
+		}
 	}
-	return err
+	return nil
 }
